@@ -10,7 +10,8 @@ EXTENDS Integers, Sequences, TLC
 
 AllocA == 1024          \* bytes of heap per input byte (measured worst case ~205: one TlsMessage per CCS byte, Vec doubling)
 AllocB == 65536         \* constant allowance
-DefragExtra == 2 * 10 * 1024 * 1024
+(* defragmenter calls: + twice the buffer length after the call (amortised growth); the buffer stays below 10 MiB *)
+DefragAllocBound(alloc, reclen, buflen) == alloc <= AllocA * reclen + 2 * buflen + AllocB
 
 (* every call returns Ok or Err: no panic, no watchdog timeout *)
 OutcomeClass(ev) == ev.res.k \in {"ok", "inc", "err", "fail"}
